@@ -136,6 +136,15 @@ def oracle(case):
         value(model.probability_density, other.head(3), what='probability_density (earlier fit)')
         value(model.cumulative_distribution, other.head(2), what='cumulative_distribution (earlier fit)')
     value(model.fit, df.copy(), what='fit')
+    if q['col_perm'] % 2:
+        # a second live model (same columns, shuffled dependence) is fitted and queried before the model under test
+        byst = M.build_gaussian(case['config'], names)
+        try:
+            byst.fit(M.variant_table(df, q['col_perm']))
+            byst.probability_density(df.head(3))
+            byst.cumulative_distribution(df.head(2))
+        except Exception:
+            pass
     C = model.correlation.to_numpy().astype(float)
     Q = queries(df, q)
     single = q['container'] in ('series', 'array1d')
